@@ -108,6 +108,17 @@ MUTANTS = [
     # ---- compile/load crash (C06)
     ("crash-equ-zero-unwrap", L + "compiler.rs", "                self.known_labels.insert(label.to_lowercase(), constant);\n                vec![]", "                self.known_labels.insert(label.to_lowercase(), constant);\n                assert!(constant != 0xEF || self.next_addr < 100, \"equ\");\n                vec![]", ["C06"]),
     ("crash-load-large-stack", L + "machine/mod.rs", "        if program.stacksize != Stacksize::NotSet {", "        if program.stacksize == Stacksize::_64 && program.bytes().count() > 0xB0 { panic!(\"program overlaps the stack\"); }\n        if program.stacksize != Stacksize::NotSet {", ["C06"]),
+    # ---- runner / CLI (C12)
+    ("run-loop-one-more-cycle", L + "runner/mod.rs", "        while emulated_cycles < self.max_cycles {", "        while emulated_cycles <= self.max_cycles && (emulated_cycles < self.max_cycles || self.max_cycles == 77) {", ["C12"]),
+    ("run-halt-checked-before-edge", L + "runner/mod.rs", "            machine.trigger_key_clock();\n            emulated_cycles += 1;\n            // Bail if possible\n            if machine.state() != State::Running {\n                break;\n            }", "            if machine.state() != State::Running {\n                break;\n            }\n            machine.trigger_key_clock();\n            emulated_cycles += 1;", ["C12"]),
+    ("run-reset-before-interrupt", L + "runner/mod.rs", "            if self.interrupts.contains(&emulated_cycles) {\n                machine.trigger_key_interrupt();\n            }\n            if self.resets.contains(&emulated_cycles) {\n                machine.cpu_reset();\n            }", "            if self.resets.contains(&emulated_cycles) {\n                machine.cpu_reset();\n            }\n            if self.interrupts.contains(&emulated_cycles) {\n                machine.trigger_key_interrupt();\n            }", ["C12"]),
+    ("run-verify-fe-ff-swapped", L + "runner/mod.rs", "            && self.output_fe != Some(result.machine.bus().output_fe())", "            && self.output_fe != Some(result.machine.bus().output_ff())", ["C12"]),
+    ("run-config-drops-input-fe", L + "machine/mod.rs", "        self.set_input_fe(config.input_fe);\n", "", ["C12"]),
+    ("run-duplicate-interrupt-ignored", L + "runner/mod.rs", "            if self.interrupts.contains(&emulated_cycles) {", "            if self.interrupts.contains(&emulated_cycles) && emulated_cycles != 0 {", ["C12"]),
+    ("cli-exit-zero-on-verification-failure", B + "main.rs", "        eprintln!(\"{}: {}\", \"Error\".red().bold(), e);\n        process::exit(1)", "        eprintln!(\"{}: {}\", \"Error\".red().bold(), e);\n        if !matches!(e, Error::RunVerification(_)) { process::exit(1) }", ["C12"]),
+    ("cli-prints-budget-as-cycles", B + "runner/mod.rs", "        hl_if_not(&res.emulated_cycles, &res.config.max_cycles),", "        hl_if_not(&res.config.max_cycles, &res.config.max_cycles),", ["C12"]),
+    ("cli-ai2-goes-to-ai1", B + "args.rs", "            analog_input2: init.ai2,", "            analog_input2: init.ai1,", ["C12"]),
+    ("cli-verify-ff-parsed-as-fe", B + "args.rs", "        if let Some(output_ff) = args.ff {\n            expectations.expect_output_ff(output_ff);", "        if let Some(output_ff) = args.ff {\n            expectations.expect_output_fe(output_ff);", ["C12"]),
     # ---- cycles (C15)
     ("cyc-wait-also-for-io", L + "machine/raw/mod.rs", "            if *register_out_a <= 0xEF {\n                trace!(\"Generating artificial wait signal\");\n                machine.pending_wait_for_memory = Some(MemoryWait);\n            }\n        } else {\n            machine.last_bus_read = 0;", "            if *register_out_a <= 0xFB {\n                trace!(\"Generating artificial wait signal\");\n                machine.pending_wait_for_memory = Some(MemoryWait);\n            }\n        } else {\n            machine.last_bus_read = 0;", ["C15"]),
     ("cyc-no-wait-reading-0x80", L + "machine/raw/mod.rs", "            if *register_out_a <= 0xEF {\n                trace!(\"Generating artificial wait signal\");\n                machine.pending_wait_for_memory = Some(MemoryWait);\n            }\n        } else {\n            machine.last_bus_read = 0;", "            if *register_out_a <= 0xEF && *register_out_a != 0x80 {\n                trace!(\"Generating artificial wait signal\");\n                machine.pending_wait_for_memory = Some(MemoryWait);\n            }\n        } else {\n            machine.last_bus_read = 0;", ["C15"]),
